@@ -426,14 +426,19 @@ impl Rectangle {
     ///
     /// Negative values will shrink the rectangle.
     pub fn offset(&self, offset: i32) -> Self {
-        let size = if offset >= 0 {
-            self.size.saturating_add(Size::new_equal(offset as u32 * 2))
+        if offset >= 0 {
+            // The top left corner is moved directly: a zero sized side has no center pixel.
+            Self::new(
+                self.top_left - Point::new_equal(offset),
+                self.size.saturating_add(Size::new_equal(offset as u32 * 2)),
+            )
         } else {
-            self.size
-                .saturating_sub(Size::new_equal((-offset) as u32 * 2))
-        };
+            let size = self
+                .size
+                .saturating_sub(Size::new_equal((-offset) as u32 * 2));
 
-        Self::with_center(self.center(), size)
+            Self::with_center(self.center(), size)
+        }
     }
 
     /// Returns an anchor point.
